@@ -55,12 +55,14 @@ SENSOR_PROPS.update({
     '*serial_number': {'initial_value': 0},
     '*target': {'initial_value': '', 'transform': _robust_target},
     'obs_label': {'initial_value': '', 'allow_repeats': True},
-    '*_product_G': {'initial_value': INVALID_GAIN},
-    '*_product_GPHASE': {'initial_value': INVALID_GAIN},
-    '*_product_GAMP_PHASE': {'initial_value': INVALID_GAIN},
-    'Calibration/Products/*/G': {'initial_value': INVALID_GAIN},
-    'Calibration/Products/*/GPHASE': {'initial_value': INVALID_GAIN},
-    'Calibration/Products/*/GAMP_PHASE': {'initial_value': INVALID_GAIN}
+    # Gain solutions are interpolated in time (per target for self-cal), so a
+    # solution that repeats the previous one is still a solution in its own right
+    '*_product_G': {'initial_value': INVALID_GAIN, 'allow_repeats': True},
+    '*_product_GPHASE': {'initial_value': INVALID_GAIN, 'allow_repeats': True},
+    '*_product_GAMP_PHASE': {'initial_value': INVALID_GAIN, 'allow_repeats': True},
+    'Calibration/Products/*/G': {'initial_value': INVALID_GAIN, 'allow_repeats': True},
+    'Calibration/Products/*/GPHASE': {'initial_value': INVALID_GAIN, 'allow_repeats': True},
+    'Calibration/Products/*/GAMP_PHASE': {'initial_value': INVALID_GAIN, 'allow_repeats': True}
 })
 
 SENSOR_ALIASES = {
